@@ -7,13 +7,14 @@ import (
 )
 
 // valBody translates the statement list of a value-returning function:
-//   x := e
-//   if p == nil { return e }            (p a pointer parameter → match on Option)
-//   a, err := CALL ; if err != nil { return e }     (→ match on Except)
-//   switch { case c: v = e … }          (→ let v := if-chain)
-//   switch tag { case A, B: return e; case C: fallthrough; default: return e }
-//   if c { return e }
-//   return e
+//
+//	x := e
+//	if p == nil { return e }            (p a pointer parameter → match on Option)
+//	a, err := CALL ; if err != nil { return e }     (→ match on Except)
+//	switch { case c: v = e … }          (→ let v := if-chain)
+//	switch tag { case A, B: return e; case C: fallthrough; default: return e }
+//	if c { return e }
+//	return e
 func (t *Tr) valBody(stmts []ast.Stmt) string {
 	if len(stmts) == 0 {
 		return "(untranslatable \"fell off the end\")"
@@ -135,7 +136,9 @@ func (t *Tr) switchReturn(sw *ast.SwitchStmt, rest []ast.Stmt) string {
 }
 
 // mapLoop recognises
-//   var out []T ; for _, p := range xs { out = append(out, E) } ; return out
+//
+//	var out []T ; for _, p := range xs { out = append(out, E) } ; return out
+//
 // and yields `xs.map (fun p => E)`.
 func (t *Tr) mapLoop(fd *ast.FuncDecl) string {
 	b := fd.Body.List
